@@ -16,7 +16,7 @@ KIT_C = [
     'nbdime.merging.chunks.split_diffs_on_boundaries',
 ]
 
-ACTIONS = ['source', 'outputs', 'metadata', 'execution_count', 'delete', 'leave', 'source2']
+ACTIONS = ['source', 'outputs', 'metadata', 'execution_count', 'delete', 'leave', 'source2', 'review']
 
 
 def act(cell, action, rnd):
@@ -39,7 +39,13 @@ def act(cell, action, rnd):
             lines[k] = lines[k].rstrip('\n') + ' # edited' + nl
         c['source'] = ''.join(lines)
         return c
-    if action == 'metadata':
+    if action == 'review' and isinstance(c['metadata'].get('reviews'), dict):
+        # a change nested below a key that consists of digits only (a table keyed by number)
+        k = rnd.choice(sorted(c['metadata']['reviews']))
+        c['metadata']['reviews'][k]['state'] = 'closed'
+        c['metadata']['reviews'][k]['by'] = rnd.choice(['ann', 'bob'])
+        return c
+    if action in ('metadata', 'review'):
         c['metadata']['note'] = rnd.choice(['a', 'b'])
         return c
     if c['cell_type'] != 'code':
@@ -88,6 +94,9 @@ def build_case(rnd):
             n += 1
             twin_case = (t, t + 1)
     base = nbspace.notebook([pool[i] for i in idx], minor, rnd.choice(nbspace.NB_METADATA))
+    if rnd.random() < 0.3:
+        for c in base['cells']:
+            c['metadata']['reviews'] = nbformat.from_dict({'1': {'state': 'open'}, '2': {'state': 'open'}, '10': {'state': 'open'}})
     owner = [rnd.choice('LRU') for _ in range(n)]
     if 'L' not in owner:
         owner[0] = 'L'
